@@ -484,6 +484,53 @@ func checkLimbSpec(c *Ctx, sp limbSpec) limbResult {
 							if lo != nil && lo.CmpAbs(w) < 0 && hi.CmpAbs(w) < 0 {
 								okWord = true
 							}
+						} else {
+							// the rest does not recombine into the inputs (only the low words of the two products
+							// are left when the HIGH words are compared first): its interval, taken word by word,
+							// is enough
+							Rw := lpoly{}
+							for m, cf := range po.st.norm(R) {
+								Rw[m] = new(big.Int).Set(cf)
+							}
+							// write every split quantity as its two words — the splits whose words the path
+							// actually compared first (the engine's split table is shared by all sign cases)
+							mentioned := func(sp *lsplit) bool {
+								for _, q := range append([]lpoly{last.d}, known...) {
+									for m := range q {
+										if strings.Contains(m, sp.lo) || strings.Contains(m, sp.hi) {
+											return true
+										}
+									}
+								}
+								return false
+							}
+							var ordered []*lsplit
+							for _, sp := range e.splits {
+								if mentioned(sp) {
+									ordered = append(ordered, sp)
+								}
+							}
+							for _, sp := range e.splits {
+								if !mentioned(sp) {
+									ordered = append(ordered, sp)
+								}
+							}
+							for _, sp := range ordered {
+								if len(sp.def) != 1 {
+									continue
+								}
+								for m, one := range sp.def {
+									if cf, ok := Rw[m]; ok && one.CmpAbs(big.NewInt(1)) == 0 && m != "" {
+										delete(Rw, m)
+										words := padd(patom(sp.lo), pscale(patom(sp.hi), sp.hiCoef))
+										Rw = padd(Rw, pscale(words, new(big.Int).Mul(cf, one))) // def = one*m with one = +-1, so m = one*def
+									}
+								}
+							}
+							lo, hi := po.st.interval(Rw)
+							if lo != nil && lo.CmpAbs(w) < 0 && hi.CmpAbs(w) < 0 {
+								okWord = true
+							}
 						}
 					}
 				}
@@ -604,6 +651,14 @@ func ruleLimb(rule string, fns ...string) func(*Ctx) {
 				continue
 			}
 			names = append(names, sp.fn)
+			if sp.fn == "multiplyUInt64" && c.fnOpt(sp.fn) == nil {
+				// the hand-written 64x64 multiplication is an internal helper: when it is gone (replaced, say, by
+				// math/bits.Mul64, which LIMB knows) what it was for is still decided on its consumers
+				// productsAreEqual and isCollinear, which read through whatever replaced it
+				n++
+				c.pass(rule, fmt.Sprintf("%s:%s:value", rule, sp.fn), token.NoPos, sp.fn, "no longer declared; the 128-bit product is decided where it is used (productsAreEqual, isCollinear)")
+				continue
+			}
 			f := c.fn(sp.fn)
 			r := checkLimbSpec(c, sp)
 			n++
